@@ -346,3 +346,165 @@ func init() {
 		r.checkClean(top.ID)
 	})
 }
+
+// splitRuns cuts a report's events at the LoadDone markers: events of the load, of the first run, of the second run, ...
+func splitRuns(rep *engReport) [][]engEvent {
+	var parts [][]engEvent
+	cur := []engEvent{}
+	for _, e := range rep.Events {
+		if e.Kind == "LoadDone" {
+			parts = append(parts, cur)
+			cur = []engEvent{}
+			continue
+		}
+		cur = append(cur, e)
+	}
+	return append(parts, cur)
+}
+
+func evaluatingOf(evs []engEvent) string {
+	set := map[string]bool{}
+	for _, e := range evs {
+		if e.Kind == "Evaluating" {
+			set[e.Label] = true
+		}
+	}
+	var ls []string
+	for l := range set {
+		ls = append(ls, l)
+	}
+	for i := range ls {
+		for j := i + 1; j < len(ls); j++ {
+			if ls[j] < ls[i] {
+				ls[i], ls[j] = ls[j], ls[i]
+			}
+		}
+	}
+	return strings.Join(ls, " ")
+}
+
+// previewThenBuildInProcess: ONE Project, run(dry) then run, no Reload (the REPL's run(x, dry_run=True); run(x)).  The
+// preview must change nothing, must predict what the build attempts, and the build is to the model an ordinary build.
+func (r *engRun) previewThenBuildInProcess(label int, what string) {
+	lbl := r.p.label(label)
+	_, r.execPos = readLines(filepath.Join(r.root, ".exec.log"), 0)
+	rep, _, hung := r.child("dry+run", lbl, nil, "")
+	if hung || rep == nil || rep.LoadErr != "" {
+		r.oracle("C13 dry run then build in one process (%s): no report (hung=%v)", what, hung)
+		return
+	}
+	if strings.Contains(rep.RunErr, "dry run changed the tree") {
+		r.oracle("C13 dry run of %s changed the tree (files, directories or persisted state) (%s)", lbl, what)
+	}
+	ranLines, _ := readLines(filepath.Join(r.root, ".exec.log"), r.execPos)
+	var ran []int
+	for _, l := range ranLines {
+		ran = append(ran, r.labelIDAny(l))
+	}
+	for i := range ran {
+		for j := i + 1; j < len(ran); j++ {
+			if ran[j] < ran[i] {
+				ran[i], ran[j] = ran[j], ran[i]
+			}
+		}
+	}
+	by, run := r.eventsByLabel(rep) // events of the second run (after the marker)
+	r.checkProtocol(run, ran, "build", rep.RunErr, lbl)
+	if parts := splitRuns(rep); len(parts) >= 3 && rep.RunErr == "" {
+		if want, got := evaluatingOf(parts[len(parts)-1]), evaluatingOf(parts[len(parts)-2]); want != got {
+			r.oracle("C13 dry run of %s predicted [%s] but the build that followed in the same process attempted [%s] (%s)", lbl, got, want, what)
+		}
+	}
+	recs, _ := r.records()
+	r.h.Ops = append(r.h.Ops, mOp{Op: "build", Label: label, Mode: "build", Note: "in process, after a dry run, no reload: " + what,
+		Obs: &mObs{Kind: "build", OK: rep.RunErr == "", Ran: ran, Events: by, Recs: recs}})
+	o := r.build(label, "build", nil, "", "fresh process afterwards")
+	if o.Kind == "build" && o.OK {
+		if len(o.Ran) != 0 {
+			r.oracle("C13 a dry run changed what the next build does: %v ran in a fresh process although the tree is what was just built (%s)", o.Ran, what)
+		}
+		r.checkClean(label)
+	}
+}
+
+func init() {
+	// previews in one process with the build that follows, in the states a preview can meet: an edited source, a deleted
+	// output, a failed build before it, nothing to do
+	engScenarios = append(engScenarios, func(r *engRun) {
+		s := r.mkSource("")
+		lib := r.mkTarget("", nil, []int{s}, 1, false, 0)
+		app := r.mkTarget("", []int{lib.ID}, nil, 1, false, 4)
+		r.emitProj("scenario: previews followed by the build in one process")
+		r.build(app.ID, "build", nil, "", "scenario")
+		r.editSource(s)
+		r.previewThenBuildInProcess(app.ID, "a source was edited")
+		r.previewThenBuildInProcess(app.ID, "nothing to do")
+		os.Remove(filepath.Join(r.root, r.p.Paths[lib.Gens[0]]))
+		r.emitFile(lib.Gens[0], 0, "delete output")
+		r.previewThenBuildInProcess(app.ID, "an output was deleted")
+		r.editSource(s)
+		r.build(app.ID, "build", []int{lib.ID}, "", "a failing build")
+		r.previewThenBuildInProcess(app.ID, "after a failed build")
+	})
+	// outputs in directories that do not exist (yet / any more): a preview creates nothing
+	engScenarios = append(engScenarios, func(r *engRun) {
+		s := r.mkSource("")
+		g := r.mkTarget("", nil, []int{s}, 1, false, 0)
+		g.Gens = []int{r.p.newPath("dist/bin/g.out0"), r.p.newPath("dist/pkg/deep/g.out1")}
+		top := r.mkTarget("", []int{g.ID}, nil, 1, false, 0)
+		top.Gens = []int{r.p.newPath("out/top.out0")}
+		r.emitProj("scenario: previews of targets whose output directories do not exist")
+		r.build(top.ID, "dry", nil, "", "fresh checkout: nothing built, no output directory")
+		r.build(g.ID, "dry", nil, "", "a sub-target")
+		r.dryThenBuild(top.ID)
+		os.RemoveAll(filepath.Join(r.root, "dist"))
+		r.emitFile(g.Gens[0], 0, "delete output")
+		r.emitFile(g.Gens[1], 0, "delete output")
+		r.build(top.ID, "dry", nil, "", "the output directory was removed")
+		r.dryThenBuild(top.ID)
+	})
+	// the last label of a kind disappears: the directory that held its records has nothing live in it any more
+	engScenarios = append(engScenarios, func(r *engRun) {
+		s := r.mkSource("")
+		a := r.mkTarget("", nil, []int{s}, 1, false, 4)
+		top := r.mkTarget("", []int{a.ID}, nil, 1, false, 0)
+		r.emitProj("scenario: collections after the last source / the last target of a package is gone")
+		r.build(top.ID, "build", nil, "", "scenario")
+		a.Srcs = nil
+		delete(r.p.Sources, s)
+		r.emitProj("the only source is no longer declared")
+		r.build(top.ID, "build", nil, "", "scenario")
+		r.gc(false)
+		r.gc(true)
+		o := r.build(top.ID, "build", nil, "", "after the collections")
+		if o.Kind == "build" && o.OK && len(o.Ran) != 0 {
+			r.oracle("C14 a collection changed what the next build executes: %v ran although nothing changed", o.Ran)
+		}
+	})
+	// a target killed inside its body although its record was valid (an always-run), completed by a build of it alone,
+	// then its dependent in a fresh process: the dependent has seen the earlier execution, not this one
+	engScenarios = append(engScenarios, func(r *engRun) {
+		s := r.mkSource("")
+		lib := r.mkTarget("", nil, []int{s}, 1, false, 0)
+		app := r.mkTarget("", []int{lib.ID}, nil, 1, false, 1)
+		top := r.mkTarget("", []int{app.ID}, nil, 1, false, 4)
+		r.emitProj("scenario: an interrupted re-run of a valid target, completed without its dependents")
+		r.build(top.ID, "build", nil, "", "scenario")
+		for _, point := range []string{"eval.after_body", "eval.before_body", "save.created"} {
+			r.build(top.ID, "always", nil, point+"|"+r.p.label(lib.ID)+"|1", "always-run killed at "+point+" of the dependency")
+			r.build(lib.ID, "build", nil, "", "the dependency alone")
+			o := r.build(top.ID, "build", nil, "", "the dependents, in a fresh process")
+			if o.Kind == "build" && o.OK {
+				r.checkClean(top.ID)
+			}
+		}
+		os.Remove(filepath.Join(r.root, r.p.Paths[lib.Gens[0]]))
+		r.emitFile(lib.Gens[0], 0, "delete output")
+		r.build(top.ID, "build", nil, "eval.after_body|"+r.p.label(lib.ID)+"|1", "re-creation of a deleted output killed after the body")
+		r.build(lib.ID, "build", nil, "", "the dependency alone")
+		o := r.build(top.ID, "build", nil, "", "the dependents, in a fresh process")
+		if o.Kind == "build" && o.OK {
+			r.checkClean(top.ID)
+		}
+	})
+}
